@@ -56,6 +56,8 @@ type Plan struct {
 	Ops        []Op              `json:"ops"`
 	Faults     []rt.Fault        `json:"faults,omitempty"`
 	Tape       []uint32          `json:"tape,omitempty"`
+	Prio       []int             `json:"prio,omitempty"`   // PCT: task priorities (non-empty selects PCT scheduling)
+	Change     []int             `json:"change,omitempty"` // PCT: scheduling steps at which the running task's priority drops
 }
 
 func (p *Plan) W(k string) int64 { return p.World[k] }
@@ -304,7 +306,7 @@ func PanicClass(prop, stack string) string {
 
 // NewSim creates the simulation of a run from its plan and makes it current.
 func NewSim(env *Env, obs func(t *rt.Task, op rt.Op, fault string), maxSteps int) *rt.Sim {
-	s := rt.New(rt.Config{Tape: env.Plan.Tape, Faults: env.Plan.Faults, KeepLog: env.KeepLog, Root: env.Dir,
+	s := rt.New(rt.Config{Tape: env.Plan.Tape, Prio: env.Plan.Prio, Change: env.Plan.Change, Faults: env.Plan.Faults, KeepLog: env.KeepLog, Root: env.Dir,
 		Observer: obs, MaxSteps: maxSteps, Settle: synctest.Wait})
 	rt.Cur = s
 	return s
